@@ -64,6 +64,9 @@ GRIDS = [
     {"cls": "cart", "shape": [8], "bounds": [[0.0, 4e-9]], "periodic": [False]},
     {"cls": "polar", "shape": [8], "radius": [0.0, 2e-9], "periodic": [False]},
     {"cls": "polar", "shape": [8], "radius": [0.0, 4e-9], "periodic": [False]},
+    # bounds whose builtin hashes coincide (hash(-1.0) == hash(-2.0)); fix of GridBase._cache_hash
+    {"cls": "cart", "shape": [8], "bounds": [[-1.0, 1.0]], "periodic": [False]},
+    {"cls": "cart", "shape": [8], "bounds": [[-2.0, 1.0]], "periodic": [False]},
 ]
 
 # boundary-condition families for one side: (label, dict for py-pde)
